@@ -137,6 +137,8 @@ def run(tier):
         if not mm:
             ck.violation("tie-broken:model-error", "model failed: " + m, src); continue
         if real_var: distinct.add(f[2])
+        if mm.get("once") != "true":
+            ck.violation("tie-broken:hypothesis", "the label scoper's output does not satisfy labels_once (hypothesis of C05_model_eq_spec)", "source:\n%s\nshape: %s" % (src, f[2]))
         spec = sorted(x for x in mm["spec"].strip("[]").split(",") if x)
         mod = sorted(x for x in mm["model"].strip("[]").split(",") if x)
         orc = [str(x) for x in oracle(f[2])]
